@@ -912,3 +912,28 @@ def r16_packed_channels_are_clamped(ck, P, rid='C13-R16'):
                 ck.violation(R, fn, 'unclamped channel packed into a pixel', '%s converts a float to an integer and packs it into one byte of a pixel (%s) without a clamp to 255 on the way: single-precision cancellation in slope * y + intercept lets an opaque interpolation reach 255.5 and more far away from two close stops, and the byte mask wraps it to 0 - transparent pixels in an opaque gradient' % (fn, x.loc()), x.loc())
     if n == 0:
         raise AnalysisBroken('%s: no float-to-integer packing found in pixman-gradient-walker.c' % rid)
+
+
+def r17_walker_position_kept_wide(ck, P, rid='C13-R17'):
+    """T-WID: the gradient parameter reaches the walker as a 48.16 value because it is not bounded (a pixel far from a short gradient has
+    |t| in the thousands).  The repeat modes NORMAL and REFLECT legitimately reduce it to its low 17 bits; every other use - the
+    comparison with the stop positions for NONE and PAD - needs the whole value."""
+    R = ck.rule(rid, 'in the gradient walker every narrowing of the 48.16 position parameter to 32 bits is consumed only by a mask with a constant of at most 17 bits (the NORMAL / REFLECT reductions); the position that is compared with the stops in the remaining branch (NONE, PAD) is the 64-bit value: truncated to 16.16, a parameter of 32768 and more changes sign, and a PAD gradient paints its first colour far behind its end point', floor=2)
+    u = P.units.get('pixman-gradient-walker.c')
+    if u is None:
+        raise AnalysisBroken('%s: pixman-gradient-walker.c not compiled' % rid)
+    n = 0
+    for fn, f in sorted(u.functions.items()):
+        wide = [i for i, (nm, ty) in enumerate(f.params) if ty == 'i64' and nm in ('pos', 'x')]
+        for x in f.insts():
+            if x.op != 'trunc' or x.ty != 'i32' or x.a[0][0] != 'a' or x.a[0][1] not in wide:
+                continue
+            n += 1; ck.saw(f)
+            bad = [q for q in f.users(x) if not (q.op == 'and' and any(a[0] == 'c' and 0 <= int(a[1]) <= 0x1ffff for a in q.a))]
+            where = '%s: narrowing of %s at %s' % (fn, f.params[x.a[0][1]][0], x.loc())
+            if not bad:
+                ck.ok(R, where, 'masked to the repeat period')
+            else:
+                ck.violation(R, fn, 'narrowed position used unmasked', '%s narrows the 48.16 gradient position to 32 bits (%s) and uses the result other than through a mask of the repeat period (%s at %s): for a parameter beyond +-32768 the value changes sign, the search through the stops takes the other end of the gradient, and a PAD or NONE gradient shows the wrong colour far away from its end points' % (fn, x.loc(), bad[0].op, bad[0].loc()), bad[0].loc())
+    if n == 0:
+        raise AnalysisBroken('%s: no narrowing of the walker position found (the repeat reductions are the positive examples)' % rid)
